@@ -15,5 +15,18 @@ for f in sorted(glob.glob('/verif/evidence/*.json')):
             print(f, "obligations != discharged"); ok = False
     except Exception as e:
         ok = False; print(f, "invalid:", str(e)[:300])
+# every finding recorded in a property's notes must be in known_findings.json with the same status (merges have lost entries before)
+main = {(f["property"], f["class"]): f for f in json.load(open('/verif/known_findings.json'))["findings"]}
+ids = [f["id"] for f in json.load(open('/verif/known_findings.json'))["findings"]]
+if len(ids) != len(set(ids)):
+    ok = False; print("known_findings.json: duplicate ids", sorted(i for i in set(ids) if ids.count(i) > 1))
+for path in sorted(glob.glob('/verif/notes/known_findings_C*.json')):
+    doc = json.load(open(path)); doc = doc["findings"] if isinstance(doc, dict) else doc
+    for f in doc:
+        got = main.get((f["property"], f["class"]))
+        if got is None:
+            ok = False; print("known_findings.json lacks", f["property"], f["class"], "of", path)
+        elif got["status"] == "known" and f["status"] == "fixed":
+            ok = False; print("known_findings.json has", f["property"], f["class"], "as known, notes say fixed")
 print("valid" if ok else "INVALID")
 sys.exit(0 if ok else 1)
